@@ -22,6 +22,9 @@
 #include <glm/ext/matrix_projection.hpp>
 #include <glm/ext/scalar_integer.hpp>
 #include <glm/ext/vector_integer.hpp>
+#include <glm/gtx/matrix_decompose.hpp>
+#include <glm/gtx/quaternion.hpp>
+#include <glm/gtx/common.hpp>
 #include <cstring>
 #include <string>
 #include <vector>
@@ -67,14 +70,14 @@ template <class T, glm::qualifier Q> struct VL<2, T, Q> { static glm::vec<2, T, 
 template <class T, glm::qualifier Q> struct VL<3, T, Q> { static glm::vec<3, T, Q> ld(const Slot* s) { return glm::vec<3, T, Q>(SA<T>::get(s[0]), SA<T>::get(s[1]), SA<T>::get(s[2])); } };
 template <class T, glm::qualifier Q> struct VL<4, T, Q> { static glm::vec<4, T, Q> ld(const Slot* s) { return glm::vec<4, T, Q>(SA<T>::get(s[0]), SA<T>::get(s[1]), SA<T>::get(s[2]), SA<T>::get(s[3])); } };
 
-template <int L, class T, glm::qualifier Q> static inline void ST(Slot* o, glm::vec<L, T, Q> const& v) { for (int i = 0; i < L; ++i) SA<T>::put(o[i], v[i]); }
+template <glm::length_t L, class T, glm::qualifier Q> static inline void ST(Slot* o, glm::vec<L, T, Q> const& v) { for (int i = 0; i < (int)L; ++i) SA<T>::put(o[i], v[i]); }
 template <class T> static inline void ST1(Slot* o, T v) { SA<T>::put(o[0], v); }
 template <int C, int R, class T, glm::qualifier Q> static inline glm::mat<C, R, T, Q> LDM(const Slot* s) {
 	glm::mat<C, R, T, Q> m;
 	for (int c = 0; c < C; ++c) m[c] = VL<R, T, Q>::ld(s + c * R);
 	return m;
 }
-template <int C, int R, class T, glm::qualifier Q> static inline void STM(Slot* o, glm::mat<C, R, T, Q> const& m) {
+template <glm::length_t C, glm::length_t R, class T, glm::qualifier Q> static inline void STM(Slot* o, glm::mat<C, R, T, Q> const& m) {
 	for (int c = 0; c < C; ++c) for (int r = 0; r < R; ++r) SA<T>::put(o[c * R + r], m[c][r]);
 }
 template <class T, glm::qualifier Q> static inline glm::qua<T, Q> LDQ(const Slot* s) {  // slots in w,x,y,z order (independent of memory order)
